@@ -126,6 +126,30 @@ def simple_salted(spec: int, cfg: int, salt: bytes, pw: bytes) -> bool:
     return run_case(spec, h, c, salt, pw, 0)
 
 
+@ob('O12.3c', 'text passphrases: the stream uses exactly the UTF-8 octets of the passphrase as given (no trimming, folding or normalisation)',
+    'passphrase of 0..2 symbolic characters over all of Unicode (incl. white space, NUL, non-BMP); Salted and Simple S2K; SHA-1/AES-128',
+    cond_timeout={'q': 240, 't': 900}, partitions=[['spec == 0'], ['spec == 1']])
+def text_passphrase(spec: int, salt: bytes, pw: str) -> bool:
+    """
+    pre: spec in (0, 1)
+    pre: len(salt) == 8
+    pre: len(pw) <= 2
+    post: _
+    """
+    s = String2Key()
+    s.usage = 254
+    s.encalg = 7
+    s.specifier = spec
+    s.halg = 2
+    s.salt = bytearray(salt)
+    s.count = 0
+    Rec.log = []
+    s.derive_key(pw)
+    want = (bytes(salt) if spec == 1 else b'') + pw.encode('utf-8')
+    fed = [r.data for r in Rec.log][-1:]
+    return fed == [want]
+
+
 TAIL = bytes((i * 13 + 5) % 256 for i in range(1200))
 
 
@@ -284,4 +308,4 @@ SANITY = ['simple_salted(%d, %d, b"12345678", b"ab")' % (s, c) for s in (0, 1) f
     'simple_salted(0, 1, b"12345678", b"")', 'simple_salted(1, 0, b"\\x00\\xff\\x80\\x7f\\x01\\x02\\x03\\x04", b"\\xc3\\xa9\\x00")',
     'iterated(0, 0, 0, b"12345678", 1, 2)', 'iterated(1, 8, 2, b"12345678", 1, 2)', 'iterated(3, 0, 3, b"abcdefgh", 0, 255)',
     'iterated(2, 8, 4, b"abcdefgh", 0, 255)', 'iterated(0, 8, 5, b"abcdefgh", 0, 255)', 'iterated(0, 0, 1, b"abcdefgh", 7, 7)',
-    'replay_arith(0, 0, False)', 'replay_arith(5, 0, False)', 'replay_arith(1100, 0, True)', 'replay_arith(20, 17, True)']
+    'text_passphrase(0, b"12345678", "a ")', 'text_passphrase(1, b"12345678", "\\n")', 'text_passphrase(1, b"12345678", "\\u00e9\\t")', 'replay_arith(0, 0, False)', 'replay_arith(5, 0, False)', 'replay_arith(1100, 0, True)', 'replay_arith(20, 17, True)']
